@@ -52,7 +52,16 @@ def check_mc_case(case):
     SK = sem.SpecK.of(K)
     snap = deep_snapshot(K)
     keys = set()
-    for t in ts:
+    # the same structure with its labelling installed through the public replace_labelling_function, as a dictionary
+    # that also has a key which is not a state (the method stores the dictionary as given; the constructor drops such keys)
+    K3 = None
+    if isinstance(kdata[2], dict):
+        K3 = gen.mk_kripke((kdata[0], kdata[1], {}))
+        L3 = dict((s_, set(l_)) for s_, l_ in kdata[2].items() if s_ in SK.states)
+        L3['#not-a-state'] = set(a_ for l_ in kdata[2].values() for a_ in l_) | set(['p', 'q'])
+        if call(K3.replace_labelling_function, L3)[0] != 'ok':
+            K3 = None
+    for ti, t in enumerate(ts):
         def bad(kind, what, attrs=None):
             a = {'logic': logic}
             a.update(attrs or {})
@@ -83,6 +92,27 @@ def check_mc_case(case):
             snap = deep_snapshot(K)
         if str(f) != printed or trees.tree(f) != t:
             bad('modelcheck:frame:formula', 'the formula object was modified')
+        if K3 is not None and ti % 3 == 0:
+            r4 = call(L.modelcheck, K3, trees.build(L, t))
+            if r4[0] != 'ok' or set(r4[1]) != exp:
+                bad('modelcheck:ensures:replaced_labelling', 'after replace_labelling_function(the same labels + a key that is not a state) gives %r, '
+                    'the semantics gives %r' % (r4[1:] if r4[0] != 'ok' else sorted(r4[1], key=repr), sorted(exp, key=repr)))
+        if logic == 'CTLS':
+            # a structure whose own atoms are named like the reduction's internal markers ('[' + str(Q) + ']' for the
+            # quantified sub-formulas Q), on states where Q does NOT hold: the formula does not mention them, so the
+            # answer is the same
+            qs = [q for q in trees.all_nodes(f) if type(q).__name__ in ('A', 'E')]
+            L2 = dict((s_, set(l_)) for s_, l_ in kdata[2].items())
+            for q in qs:
+                wrong = set(SK.states) - set(sem.sat(SK, trees.tree(q)))
+                for s_ in wrong:
+                    L2.setdefault(s_, set()).add('[%s]' % (q,))
+            if L2 != dict((s_, set(l_)) for s_, l_ in kdata[2].items()):
+                kd2 = (kdata[0], kdata[1], L2)
+                r3 = call(L.modelcheck, gen.mk_kripke(kd2), trees.build(L, t))
+                if r3[0] != 'ok' or set(r3[1]) != exp:
+                    bad('modelcheck:ensures:marker_named_atoms', 'on %s (atoms named like internal markers added) gives %r, the semantics gives %r'
+                        % (gen.ktext(kd2), r3[1:] if r3[0] != 'ok' else sorted(r3[1], key=repr), sorted(exp, key=repr)))
         if opts.get('text'):
             r2 = call(L.modelcheck, K, trees.to_text(t))
             if r2[0] != 'ok' or set(r2[1]) != exp:
@@ -353,6 +383,9 @@ def check_presentation_case(case):
     # names that the library itself uses for its internal markers must be as good as any other
     amap2 = {'p': 'fair', 'q': 'fair0'}
     variants.append(('rename-atoms-to-marker-names', (list(S), list(R), {s: [amap2.get(a, a) for a in l] for s, l in Lab.items()}), ident, amap2, None))
+    # ... and so must the reserved words of the concrete syntax, which are ordinary names for formula OBJECTS
+    amap3 = rng.choice([{'p': 'X', 'q': 'and'}, {'p': 'G', 'q': 'U'}, {'p': 'A', 'q': 'not'}, {'p': 'F', 'q': 'R'}, {'p': 'or', 'q': 'E'}, {'p': 'true', 'q': 'false'}])
+    variants.append(('rename-atoms-to-reserved-words', (list(S), list(R), {s: [amap3.get(a, a) for a in l] for s, l in Lab.items()}), ident, amap3, None))
     extra = ['u1', 'u2']
     Rx = list(R) + [('u1', 'u2'), ('u2', 'u1'), ('u2', 'u2')] + ([('u1', S[0])] if rng.random() < 0.5 else [])
     Lx = dict((s, list(l)) for s, l in Lab.items())
@@ -377,7 +410,8 @@ def check_presentation_case(case):
                 fails.append(('presentation:' + name,
                               '%s changes the answer of %s.modelcheck(%s, %s): %r instead of %r (variant structure S=%r,R=%r,L=%r)'
                               % (name, logic, gen.ktext(kdata), trees.to_text(t), r[1:] if r[0] != 'ok' else got, exp, kd2[0], kd2[1], kd2[2]),
-                              {'logic': logic, 'variant': name}, (logic, kdata, [t], seed)))
+                              {'logic': logic, 'variant': name, 'atom_named_like_a_constant_of_the_formula': _atom_like_own_constant(t2)},
+                              (logic, kdata, [t], seed)))
     # with fairness constraints: only the atom renamings are compared (same states in the same order: what the
     # library computes under fairness is known to depend on the order of the states, KF-C15-1)
     nf = 0
@@ -402,9 +436,25 @@ def check_presentation_case(case):
                                       '%s changes the answer of %s.modelcheck(%s, %s, F=%r): %r instead of %r'
                                       % (name, logic, gen.ktext(kdata), trees.to_text(t), [sorted(P, key=repr) for P in F],
                                          r[1:] if r[0] != 'ok' else r[1], base[1]),
-                                      {'logic': logic, 'variant': name + ':fair', 'formula_atom_absent_from_labels': absent},
+                                      {'logic': logic, 'variant': name + ':fair', 'formula_atom_absent_from_labels': absent,
+                                       'atom_named_like_a_constant_of_the_formula': _atom_like_own_constant(t2)},
                                       (logic, kdata, [t], seed)))
     return {'fails': fails, 'n': len(ts) * len(variants) + nf, 'keys': keys}
+
+
+def _tree_constants(t):
+    if t[0] in ('true', 'false'):
+        return {t[0]}
+    out = set()
+    for c in t[1:]:
+        if isinstance(c, tuple) and t[0] != 'ap':
+            out |= _tree_constants(c)
+    return out
+
+
+def _atom_like_own_constant(t):
+    """the formula has an atom called true/false AND the Boolean constant of that name (KF-C06-2)"""
+    return bool(_tree_atoms(t) & _tree_constants(t))
 
 
 def _tree_atoms(t):
